@@ -13,10 +13,10 @@ import (
 
 // ---- C14: strconv (int.go, number.go, decimal.go, float.go) -----------------------------------
 
-func u64halves(x uint64) (int64, int64) { return int64(x >> 32), int64(x & 0xFFFFFFFF) }
+func c14U64halves(x uint64) (int64, int64) { return int64(x >> 32), int64(x & 0xFFFFFFFF) }
 
-// encBytesOrPanic runs f and encodes its result like Strconv/Harness.v enc_bytes.
-func encBytesOrPanic(f func() []byte) []int64 {
+// c14EncBytesOrPanic runs f and encodes its result like Strconv/Harness.v enc_bytes.
+func c14EncBytesOrPanic(f func() []byte) []int64 {
 	var res []byte
 	if p := catch(func() { res = f() }); p != nil {
 		return []int64{-1}
@@ -24,8 +24,8 @@ func encBytesOrPanic(f func() []byte) []int64 {
 	return bytesToArgs(res)
 }
 
-// withSpare returns a slice with contents b whose backing array continues with spare (cap = len(b)+len(spare)).
-func withSpare(b, spare []byte) []byte {
+// c14WithSpare returns a slice with contents b whose backing array continues with spare (cap = len(b)+len(spare)).
+func c14WithSpare(b, spare []byte) []byte {
 	arr := make([]byte, len(b)+len(spare))
 	copy(arr, b)
 	copy(arr[len(b):], spare)
@@ -45,8 +45,8 @@ var c14IntBoundary = []string{
 	"27670116110564327424", "36893488147419103232", "92233720368547758070", "92233720368547758080",
 }
 
-// genIntString produces a numeric byte string directed at the 64-bit limits.
-func genIntString(r *Rng) []byte {
+// c14GenIntString produces a numeric byte string directed at the 64-bit limits.
+func c14GenIntString(r *Rng) []byte {
 	var b []byte
 	switch r.Intn(8) {
 	case 0, 1: // boundary constant, possibly perturbed in one digit
@@ -119,7 +119,7 @@ var c14IntValues = func() []int64 {
 	return v
 }()
 
-func genInt64(r *Rng) int64 {
+func c14GenInt64(r *Rng) int64 {
 	switch r.Intn(4) {
 	case 0:
 		return c14IntValues[r.Intn(len(c14IntValues))]
@@ -134,7 +134,7 @@ func genInt64(r *Rng) int64 {
 	}
 }
 
-func genPrefixSpare(r *Rng) ([]byte, []byte) {
+func c14GenPrefixSpare(r *Rng) ([]byte, []byte) {
 	var b, sp []byte
 	if r.Chance(1, 2) {
 		for i, n := 0, r.Intn(4); i < n; i++ {
@@ -153,7 +153,7 @@ func genPrefixSpare(r *Rng) ([]byte, []byte) {
 var c14Runes = []rune{'.', ',', ' ', '\'', '_', 0xA0, 0x2009, 0x202F, 0x66C, 0x7FF, 0x800, 0xFFFD, 0xFFFF, 0x10000, 0x10FFFF, 0x1F600, 0, 0x7F, 0x80}
 var c14BadRunes = []rune{-1, 0xD800, 0xDFFF, 0x110000, math.MaxInt32, math.MinInt32, '0', '9', '-', '5'}
 
-func genRune(r *Rng, bad bool) rune {
+func c14GenRune(r *Rng, bad bool) rune {
 	if bad && r.Chance(1, 6) {
 		return c14BadRunes[r.Intn(len(c14BadRunes))]
 	}
@@ -165,13 +165,13 @@ func genRune(r *Rng, bad bool) rune {
 
 // ---- correspondence models -----------------------------------------------------------------------------
 
-func bytesCase(fn string, b []byte, pre ...int64) Case {
+func c14BytesCase(fn string, b []byte, pre ...int64) Case {
 	args := append([]int64{}, pre...)
 	args = append(args, bytesToArgs(b)...)
 	return Case{Fn: fn, Args: args, Note: fmt.Sprintf("%s %v %q", fn, pre, b)}
 }
 
-func shrinkLastBytes(nfixed int) func(c Case) []Case {
+func c14ShrinkLastBytes(nfixed int) func(c Case) []Case {
 	// the case is nfixed integers followed by one length-prefixed byte string (and possibly more lists, kept)
 	return func(c Case) []Case {
 		a := c.Args
@@ -189,7 +189,7 @@ func shrinkLastBytes(nfixed int) func(c Case) []Case {
 	}
 }
 
-func lenClass(n int) string {
+func c14LenClass(n int) string {
 	switch {
 	case n == 0:
 		return "len0"
@@ -203,7 +203,7 @@ func lenClass(n int) string {
 	return "len21+"
 }
 
-var scParseInt = &Model{
+var c14ScParseInt = &Model{
 	Name: "sc_parseint",
 	Gen: func(r *Rng, tier string, emit func(Case)) {
 		k := 5
@@ -211,16 +211,16 @@ var scParseInt = &Model{
 		if tier == "thorough" {
 			k, n = 7, 400000
 		}
-		allStrings(c14IntAlphabet, k, func(b []byte) { emit(bytesCase("sc_parseint", b)) })
+		allStrings(c14IntAlphabet, k, func(b []byte) { emit(c14BytesCase("sc_parseint", b)) })
 		for _, s := range c14IntBoundary {
 			for _, p := range []string{"", "+", "-", "-000", "00"} {
-				emit(bytesCase("sc_parseint", []byte(p+s)))
-				emit(bytesCase("sc_parseint", []byte(p+s+"0")))
-				emit(bytesCase("sc_parseint", []byte(p+s+"x")))
+				emit(c14BytesCase("sc_parseint", []byte(p+s)))
+				emit(c14BytesCase("sc_parseint", []byte(p+s+"0")))
+				emit(c14BytesCase("sc_parseint", []byte(p+s+"x")))
 			}
 		}
 		for i := 0; i < n; i++ {
-			emit(bytesCase("sc_parseint", genIntString(r)))
+			emit(c14BytesCase("sc_parseint", c14GenIntString(r)))
 		}
 	},
 	Impl: func(c Case) []int64 {
@@ -228,9 +228,9 @@ var scParseInt = &Model{
 		v, n := strconv.ParseInt(toBytes(bv))
 		return []int64{v, int64(n)}
 	},
-	Shrink: shrinkLastBytes(0),
+	Shrink: c14ShrinkLastBytes(0),
 	Class: func(c Case, out []int64) string {
-		s := lenClass(int(c.Args[0]))
+		s := c14LenClass(int(c.Args[0]))
 		if len(out) == 2 && out[1] == 0 {
 			return s + "/zero"
 		}
@@ -238,7 +238,7 @@ var scParseInt = &Model{
 	},
 }
 
-var scParseUint = &Model{
+var c14ScParseUint = &Model{
 	Name: "sc_parseuint",
 	Gen: func(r *Rng, tier string, emit func(Case)) {
 		k := 4
@@ -246,27 +246,27 @@ var scParseUint = &Model{
 		if tier == "thorough" {
 			k, n = 6, 400000
 		}
-		allStrings(c14IntAlphabet, k, func(b []byte) { emit(bytesCase("sc_parseuint", b)) })
+		allStrings(c14IntAlphabet, k, func(b []byte) { emit(c14BytesCase("sc_parseuint", b)) })
 		for _, s := range c14IntBoundary {
 			for _, p := range []string{"", "+", "000"} {
-				emit(bytesCase("sc_parseuint", []byte(p+s)))
-				emit(bytesCase("sc_parseuint", []byte(p+s+"0")))
-				emit(bytesCase("sc_parseuint", []byte(p+s+"x")))
+				emit(c14BytesCase("sc_parseuint", []byte(p+s)))
+				emit(c14BytesCase("sc_parseuint", []byte(p+s+"0")))
+				emit(c14BytesCase("sc_parseuint", []byte(p+s+"x")))
 			}
 		}
 		for i := 0; i < n; i++ {
-			emit(bytesCase("sc_parseuint", genIntString(r)))
+			emit(c14BytesCase("sc_parseuint", c14GenIntString(r)))
 		}
 	},
 	Impl: func(c Case) []int64 {
 		bv, _ := takeList(c.Args)
 		v, n := strconv.ParseUint(toBytes(bv))
-		hi, lo := u64halves(v)
+		hi, lo := c14U64halves(v)
 		return []int64{hi, lo, int64(n)}
 	},
-	Shrink: shrinkLastBytes(0),
+	Shrink: c14ShrinkLastBytes(0),
 	Class: func(c Case, out []int64) string {
-		s := lenClass(int(c.Args[0]))
+		s := c14LenClass(int(c.Args[0]))
 		if len(out) == 3 && out[2] == 0 {
 			return s + "/zero"
 		}
@@ -274,11 +274,11 @@ var scParseUint = &Model{
 	},
 }
 
-var scLenUint = &Model{
+var c14ScLenUint = &Model{
 	Name: "sc_lenuint",
 	Gen: func(r *Rng, tier string, emit func(Case)) {
 		mk := func(v uint64) {
-			hi, lo := u64halves(v)
+			hi, lo := c14U64halves(v)
 			emit(Case{Fn: "sc_lenuint", Args: []int64{hi, lo}, Note: fmt.Sprintf("LenUint(%d)", v)})
 		}
 		p := uint64(1)
@@ -307,31 +307,31 @@ var scLenUint = &Model{
 	Class: func(c Case, out []int64) string { return fmt.Sprintf("digits%02d", out[0]) },
 }
 
-func appendIntCase(num int64, b, sp []byte) Case {
+func c14AppendIntCase(num int64, b, sp []byte) Case {
 	args := []int64{num}
 	args = append(args, bytesToArgs(b)...)
 	args = append(args, bytesToArgs(sp)...)
 	return Case{Fn: "sc_appendint", Args: args, Note: fmt.Sprintf("AppendInt(%q cap+%d, %d)", b, len(sp), num)}
 }
 
-var scAppendInt = &Model{
+var c14ScAppendInt = &Model{
 	Name: "sc_appendint",
 	Gen: func(r *Rng, tier string, emit func(Case)) {
 		for _, v := range c14IntValues {
-			emit(appendIntCase(v, nil, nil))
-			b, sp := genPrefixSpare(r)
-			emit(appendIntCase(v, b, sp))
+			emit(c14AppendIntCase(v, nil, nil))
+			b, sp := c14GenPrefixSpare(r)
+			emit(c14AppendIntCase(v, b, sp))
 		}
 		for v := int64(-1100); v <= 1100; v++ {
-			emit(appendIntCase(v, nil, nil))
+			emit(c14AppendIntCase(v, nil, nil))
 		}
 		n := 3000
 		if tier == "thorough" {
 			n = 300000
 		}
 		for i := 0; i < n; i++ {
-			b, sp := genPrefixSpare(r)
-			emit(appendIntCase(genInt64(r), b, sp))
+			b, sp := c14GenPrefixSpare(r)
+			emit(c14AppendIntCase(c14GenInt64(r), b, sp))
 		}
 	},
 	Impl: func(c Case) []int64 {
@@ -339,7 +339,7 @@ var scAppendInt = &Model{
 		bv, rest := takeList(c.Args[1:])
 		sv, _ := takeList(rest)
 		out := []int64{int64(strconv.LenInt(num))}
-		return append(out, encBytesOrPanic(func() []byte { return strconv.AppendInt(withSpare(toBytes(bv), toBytes(sv)), num) })...)
+		return append(out, c14EncBytesOrPanic(func() []byte { return strconv.AppendInt(c14WithSpare(toBytes(bv), toBytes(sv)), num) })...)
 	},
 	Class: func(c Case, out []int64) string {
 		s := fmt.Sprintf("len%02d", out[0])
@@ -350,7 +350,7 @@ var scAppendInt = &Model{
 	},
 }
 
-func genNumberString(r *Rng, gs, ds rune) []byte {
+func c14GenNumberString(r *Rng, gs, ds rune) []byte {
 	var b []byte
 	if r.Chance(1, 3) {
 		b = append(b, '-')
@@ -371,7 +371,7 @@ func genNumberString(r *Rng, gs, ds rune) []byte {
 		case 8:
 			b = append(b, []byte{0x80, 0xFF, 0xC3, 0xE2, 0x82, 0xF0, 0x9F, 'a', '-', '+', 0, ' '}[r.Intn(12)])
 		case 9:
-			b = utf8.AppendRune(b, genRune(r, false))
+			b = utf8.AppendRune(b, c14GenRune(r, false))
 		}
 	}
 	if r.Chance(1, 6) && len(b) > 0 { // truncate inside a multi-byte symbol
@@ -380,7 +380,7 @@ func genNumberString(r *Rng, gs, ds rune) []byte {
 	return b
 }
 
-var scParseNumber = &Model{
+var c14ScParseNumber = &Model{
 	Name: "sc_parsenumber",
 	Gen: func(r *Rng, tier string, emit func(Case)) {
 		k := 4
@@ -390,18 +390,18 @@ var scParseNumber = &Model{
 		}
 		// exhaustive over a small alphabet with a 2-byte group symbol U+00A0 (C2 A0) and ',' as decimal symbol
 		allStrings([]byte{'-', '0', '9', ',', 0xC2, 0xA0, 'x'}, k, func(b []byte) {
-			emit(bytesCase("sc_parsenumber", b, 0xA0, ','))
+			emit(c14BytesCase("sc_parsenumber", b, 0xA0, ','))
 		})
 		for _, s := range c14IntBoundary {
 			for _, p := range []string{"", "-", "-0", "0.", "-0,"} {
-				emit(bytesCase("sc_parsenumber", []byte(p+s), '.', ','))
-				emit(bytesCase("sc_parsenumber", []byte(p+s[:len(s)/2]+"."+s[len(s)/2:]), '.', ','))
-				emit(bytesCase("sc_parsenumber", []byte(p+s[:len(s)/2]+","+s[len(s)/2:]+"1"), '.', ','))
+				emit(c14BytesCase("sc_parsenumber", []byte(p+s), '.', ','))
+				emit(c14BytesCase("sc_parsenumber", []byte(p+s[:len(s)/2]+"."+s[len(s)/2:]), '.', ','))
+				emit(c14BytesCase("sc_parsenumber", []byte(p+s[:len(s)/2]+","+s[len(s)/2:]+"1"), '.', ','))
 			}
 		}
 		for i := 0; i < n; i++ {
-			gs, ds := genRune(r, true), genRune(r, true)
-			emit(bytesCase("sc_parsenumber", genNumberString(r, gs, ds), int64(gs), int64(ds)))
+			gs, ds := c14GenRune(r, true), c14GenRune(r, true)
+			emit(c14BytesCase("sc_parsenumber", c14GenNumberString(r, gs, ds), int64(gs), int64(ds)))
 		}
 	},
 	Impl: func(c Case) []int64 {
@@ -415,7 +415,7 @@ var scParseNumber = &Model{
 		}
 		return out
 	},
-	Shrink: shrinkLastBytes(2),
+	Shrink: c14ShrinkLastBytes(2),
 	Class: func(c Case, out []int64) string {
 		if len(out) != 3 {
 			return "panic"
@@ -431,15 +431,15 @@ var scParseNumber = &Model{
 	},
 }
 
-func appendNumberCase(num int64, dec, gsize int, gs, ds rune, b, sp []byte) Case {
+func c14AppendNumberCase(num int64, dec, gsize int, gs, ds rune, b, sp []byte) Case {
 	args := []int64{num, int64(dec), int64(gsize), int64(gs), int64(ds)}
 	args = append(args, bytesToArgs(b)...)
 	args = append(args, bytesToArgs(sp)...)
 	return Case{Fn: "sc_appendnumber", Args: args, Note: fmt.Sprintf("AppendNumber(%q cap+%d, %d, dec=%d, group=%d, %U, %U)", b, len(sp), num, dec, gsize, gs, ds)}
 }
 
-func genNumberConfig(r *Rng, bad bool) (num int64, dec, gsize int, gs, ds rune) {
-	num = genInt64(r)
+func c14GenNumberConfig(r *Rng, bad bool) (num int64, dec, gsize int, gs, ds rune) {
+	num = c14GenInt64(r)
 	dec = r.Intn(20)
 	if r.Chance(1, 10) {
 		dec = r.Intn(45) - 3
@@ -448,15 +448,15 @@ func genNumberConfig(r *Rng, bad bool) (num int64, dec, gsize int, gs, ds rune) 
 	if bad && r.Chance(1, 12) {
 		gsize = -1 - r.Intn(3)
 	}
-	gs = genRune(r, bad)
-	ds = genRune(r, bad)
+	gs = c14GenRune(r, bad)
+	ds = c14GenRune(r, bad)
 	for !bad && (ds == gs) {
-		ds = genRune(r, false)
+		ds = c14GenRune(r, false)
 	}
 	return
 }
 
-var scAppendNumber = &Model{
+var c14ScAppendNumber = &Model{
 	Name: "sc_appendnumber",
 	Gen: func(r *Rng, tier string, emit func(Case)) {
 		// small scope: every digit count 1..8 x dec 0..9 x group size 0..4 x symbol widths
@@ -466,11 +466,11 @@ var scAppendNumber = &Model{
 					for dec := 0; dec <= 9; dec++ {
 						p := int64(1)
 						for k := 0; k < 8; k++ {
-							emit(appendNumberCase(p*7+3, dec, gsize, gs, ds, nil, nil))
-							emit(appendNumberCase(-(p*7 + 3), dec, gsize, gs, ds, nil, nil))
+							emit(c14AppendNumberCase(p*7+3, dec, gsize, gs, ds, nil, nil))
+							emit(c14AppendNumberCase(-(p*7 + 3), dec, gsize, gs, ds, nil, nil))
 							p *= 10
 						}
-						emit(appendNumberCase(0, dec, gsize, gs, ds, nil, nil))
+						emit(c14AppendNumberCase(0, dec, gsize, gs, ds, nil, nil))
 					}
 				}
 			}
@@ -480,17 +480,17 @@ var scAppendNumber = &Model{
 			n = 300000
 		}
 		for i := 0; i < n; i++ {
-			num, dec, gsize, gs, ds := genNumberConfig(r, true)
-			b, sp := genPrefixSpare(r)
-			emit(appendNumberCase(num, dec, gsize, gs, ds, b, sp))
+			num, dec, gsize, gs, ds := c14GenNumberConfig(r, true)
+			b, sp := c14GenPrefixSpare(r)
+			emit(c14AppendNumberCase(num, dec, gsize, gs, ds, b, sp))
 		}
 	},
 	Impl: func(c Case) []int64 {
 		a := c.Args
 		bv, rest := takeList(a[5:])
 		sv, _ := takeList(rest)
-		return encBytesOrPanic(func() []byte {
-			return strconv.AppendNumber(withSpare(toBytes(bv), toBytes(sv)), a[0], int(a[1]), int(a[2]), rune(a[3]), rune(a[4]))
+		return c14EncBytesOrPanic(func() []byte {
+			return strconv.AppendNumber(c14WithSpare(toBytes(bv), toBytes(sv)), a[0], int(a[1]), int(a[2]), rune(a[3]), rune(a[4]))
 		})
 	},
 	Class: func(c Case, out []int64) string {
@@ -510,7 +510,7 @@ var scAppendNumber = &Model{
 // ---- oracles: the property text checked on the implementation, against the standard library ---------------
 
 // longest prefix of [+-]?[0-9]+ (signed) or [0-9]+; 0 if there is no digit
-func intPrefix(b []byte, signed bool) int {
+func c14IntPrefix(b []byte, signed bool) int {
 	i := 0
 	if signed && len(b) > 0 && (b[0] == '+' || b[0] == '-') {
 		i = 1
@@ -528,7 +528,7 @@ func intPrefix(b []byte, signed bool) int {
 func c14IntOracle(r *Rng, tier string, rep *Report) {
 	checkInt := func(b []byte) {
 		v, n := strconv.ParseInt(b)
-		k := intPrefix(b, true)
+		k := c14IntPrefix(b, true)
 		var wv int64
 		wn := 0
 		if k > 0 {
@@ -540,11 +540,11 @@ func c14IntOracle(r *Rng, tier string, rep *Report) {
 			rep.Violate(fmt.Sprintf("ParseInt:%q", b), fmt.Sprintf("ParseInt(%q) = (%d,%d), the longest [+-]digits prefix has value/length (%d,%d) by the standard library", b, v, n, wv, wn),
 				map[string]interface{}{"fn": "ParseInt", "input": hx(b)})
 		}
-		rep.Eval("i:"+string(b), k > 0, "ParseInt/"+lenClass(len(b)))
+		rep.Eval("i:"+string(b), k > 0, "ParseInt/"+c14LenClass(len(b)))
 	}
 	checkUint := func(b []byte) {
 		v, n := strconv.ParseUint(b)
-		k := intPrefix(b, false)
+		k := c14IntPrefix(b, false)
 		var wv uint64
 		wn := 0
 		if k > 0 {
@@ -556,12 +556,12 @@ func c14IntOracle(r *Rng, tier string, rep *Report) {
 			rep.Violate(fmt.Sprintf("ParseUint:%q", b), fmt.Sprintf("ParseUint(%q) = (%d,%d), the longest digits prefix has value/length (%d,%d) by the standard library", b, v, n, wv, wn),
 				map[string]interface{}{"fn": "ParseUint", "input": hx(b)})
 		}
-		rep.Eval("u:"+string(b), k > 0, "ParseUint/"+lenClass(len(b)))
+		rep.Eval("u:"+string(b), k > 0, "ParseUint/"+c14LenClass(len(b)))
 	}
 	checkAppend := func(num int64, pre, sp []byte) {
 		want := gostrconv.AppendInt(append([]byte{}, pre...), num, 10)
 		var got []byte
-		p := catch(func() { got = strconv.AppendInt(withSpare(pre, sp), num) })
+		p := catch(func() { got = strconv.AppendInt(c14WithSpare(pre, sp), num) })
 		if p != nil || !bytes.Equal(got, want) {
 			rep.Violate(fmt.Sprintf("AppendInt:%d:%x:%d", num, pre, len(sp)), fmt.Sprintf("AppendInt(%q cap+%d, %d) = %q (panic=%v), standard library %q", pre, len(sp), num, got, p, want),
 				map[string]interface{}{"fn": "AppendInt", "num": num, "prefix": hx(pre), "spare": len(sp)})
@@ -590,7 +590,7 @@ func c14IntOracle(r *Rng, tier string, rep *Report) {
 		}
 	}
 	for i := 0; i < n; i++ {
-		b := genIntString(r)
+		b := c14GenIntString(r)
 		checkInt(b)
 		checkUint(b)
 	}
@@ -602,8 +602,8 @@ func c14IntOracle(r *Rng, tier string, rep *Report) {
 		checkAppend(v, nil, nil)
 	}
 	for i := 0; i < n; i++ {
-		b, sp := genPrefixSpare(r)
-		checkAppend(genInt64(r), b, sp)
+		b, sp := c14GenPrefixSpare(r)
+		checkAppend(c14GenInt64(r), b, sp)
 	}
 	for v := uint64(1); ; v *= 10 { // LenUint at every power of ten, also above MaxInt64
 		for _, x := range []uint64{v - 1, v, v + 1} {
@@ -618,9 +618,9 @@ func c14IntOracle(r *Rng, tier string, rep *Report) {
 	}
 }
 
-// refNumber renders num with dec decimals, groups of gsize separated by gs and decimal symbol ds,
+// c14RefNumber renders num with dec decimals, groups of gsize separated by gs and decimal symbol ds,
 // written from the documentation with math/big and string operations only.
-func refNumber(num int64, dec, gsize int, gs, ds rune) []byte {
+func c14RefNumber(num int64, dec, gsize int, gs, ds rune) []byte {
 	if dec < 0 {
 		dec = 0
 	}
@@ -646,14 +646,14 @@ func refNumber(num int64, dec, gsize int, gs, ds rune) []byte {
 	return out
 }
 
-func badSym(r rune) bool { return r == '-' || ('0' <= r && r <= '9') }
+func c14BadSym(r rune) bool { return r == '-' || ('0' <= r && r <= '9') }
 
 func c14NumberOracle(r *Rng, tier string, rep *Report) {
 	check := func(num int64, dec, gsize int, gs, ds rune, pre, sp []byte) {
 		key := fmt.Sprintf("number:%d:%d:%d:%U:%U", num, dec, gsize, gs, ds)
 		rp := map[string]interface{}{"fn": "AppendNumber", "num": num, "dec": dec, "group": gsize, "groupSym": int(gs), "decSym": int(ds), "prefix": hx(pre), "spare": len(sp)}
 		var out []byte
-		if p := catch(func() { out = strconv.AppendNumber(withSpare(pre, sp), num, dec, gsize, gs, ds) }); p != nil {
+		if p := catch(func() { out = strconv.AppendNumber(c14WithSpare(pre, sp), num, dec, gsize, gs, ds) }); p != nil {
 			rep.Violate(key, fmt.Sprintf("AppendNumber(%d, dec=%d, group=%d, %U, %U) panics: %v", num, dec, gsize, gs, ds, p), rp)
 			return
 		}
@@ -662,7 +662,7 @@ func c14NumberOracle(r *Rng, tier string, rep *Report) {
 			return
 		}
 		body := out[len(pre):]
-		if want := refNumber(num, dec, gsize, gs, ds); !bytes.Equal(body, want) {
+		if want := c14RefNumber(num, dec, gsize, gs, ds); !bytes.Equal(body, want) {
 			rep.Violate(key, fmt.Sprintf("AppendNumber(%d, dec=%d, group=%d, %U, %U) = %q, expected %q", num, dec, gsize, gs, ds, body, want), rp)
 		}
 		n2, d2, l2 := strconv.ParseNumber(body, gs, ds)
@@ -688,18 +688,18 @@ func c14NumberOracle(r *Rng, tier string, rep *Report) {
 		n = 2000000
 	}
 	for i := 0; i < n; i++ {
-		num, dec, gsize, gs, ds := genNumberConfig(r, false)
-		if dec > 18 || dec < 0 || utf8.RuneLen(gs) < 0 || utf8.RuneLen(ds) < 0 || gs == ds || badSym(gs) || badSym(ds) {
+		num, dec, gsize, gs, ds := c14GenNumberConfig(r, false)
+		if dec > 18 || dec < 0 || utf8.RuneLen(gs) < 0 || utf8.RuneLen(ds) < 0 || gs == ds || c14BadSym(gs) || c14BadSym(ds) {
 			continue
 		}
-		b, sp := genPrefixSpare(r)
+		b, sp := c14GenPrefixSpare(r)
 		check(num, dec, gsize, gs, ds, b, sp)
 	}
 }
 
 func init() {
 	props["C14"] = &PropSpec{
-		Models: []*Model{scParseInt, scParseUint, scLenUint, scAppendInt, scParseNumber, scAppendNumber},
+		Models: []*Model{c14ScParseInt, c14ScParseUint, c14ScLenUint, c14ScAppendInt, c14ScParseNumber, c14ScAppendNumber},
 		Oracles: []*Oracle{
 			{Name: "c14-int-stdlib", Run: c14IntOracle},
 			{Name: "c14-number-roundtrip", Run: c14NumberOracle},
@@ -709,21 +709,21 @@ func init() {
 
 // ---- floats: correspondence models (bit-for-bit, math.Float64bits) -----------------------------------------
 
-func canonBits(f float64) uint64 {
+func c14CanonBits(f float64) uint64 {
 	if f != f {
 		return 0x7FF8000000000000
 	}
 	return math.Float64bits(f)
 }
 
-func floatRes(f float64, n int) []int64 {
-	hi, lo := u64halves(canonBits(f))
+func c14FloatRes(f float64, n int) []int64 {
+	hi, lo := c14U64halves(c14CanonBits(f))
 	return []int64{hi, lo, int64(n)}
 }
 
 var c14FloatAlphabet = []byte{'-', '+', '0', '1', '9', '.', 'e'}
 
-func digitsN(r *Rng, n int) []byte {
+func c14DigitsN(r *Rng, n int) []byte {
 	b := make([]byte, n)
 	for i := range b {
 		b[i] = byte('0' + r.Intn(10))
@@ -731,8 +731,8 @@ func digitsN(r *Rng, n int) []byte {
 	return b
 }
 
-// genFloatString: [sign] digits [. digits] [e [sign] digits] directed at digit-count and exponent boundaries.
-func genFloatString(r *Rng) []byte {
+// c14GenFloatString: [sign] digits [. digits] [e [sign] digits] directed at digit-count and exponent boundaries.
+func c14GenFloatString(r *Rng) []byte {
 	var b []byte
 	switch r.Intn(6) {
 	case 0:
@@ -745,7 +745,7 @@ func genFloatString(r *Rng) []byte {
 		if r.Chance(1, 4) {
 			ni = r.Intn(24)
 		}
-		ip := digitsN(r, ni)
+		ip := c14DigitsN(r, ni)
 		if r.Chance(1, 4) {
 			for i := 0; i < len(ip) && i < 1+r.Intn(6); i++ {
 				ip[i] = '0'
@@ -761,7 +761,7 @@ func genFloatString(r *Rng) []byte {
 		if r.Chance(3, 5) {
 			b = append(b, '.')
 			nf := []int{0, 1, 2, 3, 8, 15, 17, 18, 19, 20, 22, 30}[r.Intn(12)]
-			fp := digitsN(r, nf)
+			fp := c14DigitsN(r, nf)
 			if r.Chance(1, 5) { // many zeros after the dot: mantExp beyond Pow10's domain
 				z := []int{1, 5, 22, 300, 308, 323, 324, 330, 400}[r.Intn(9)]
 				fp = append(bytes.Repeat([]byte{'0'}, z), fp...)
@@ -828,8 +828,8 @@ func genFloatString(r *Rng) []byte {
 }
 
 // genDecimalFromFloat: a decimal literal that is the shortest or a long rendering of a random double.
-func genFloatLiteral(r *Rng) []byte {
-	f := genFloat64(r)
+func c14GenFloatLiteral(r *Rng) []byte {
+	f := c14GenFloat64(r)
 	if math.IsNaN(f) || math.IsInf(f, 0) {
 		f = 1.5
 	}
@@ -864,7 +864,7 @@ var c14FloatValues = func() []float64 {
 	return v
 }()
 
-func genFloat64(r *Rng) float64 {
+func c14GenFloat64(r *Rng) float64 {
 	switch r.Intn(10) {
 	case 0, 1:
 		f := c14FloatValues[r.Intn(len(c14FloatValues))]
@@ -919,66 +919,66 @@ func genFloat64(r *Rng) float64 {
 	}
 }
 
-func floatCase(fn string, f float64, p int, b, sp []byte) Case {
-	hi, lo := u64halves(math.Float64bits(f))
+func c14FloatCase(fn string, f float64, p int, b, sp []byte) Case {
+	hi, lo := c14U64halves(math.Float64bits(f))
 	args := []int64{hi, lo, int64(p)}
 	args = append(args, bytesToArgs(b)...)
 	args = append(args, bytesToArgs(sp)...)
 	return Case{Fn: fn, Args: args, Note: fmt.Sprintf("%s(%q cap+%d, %v [%#x], %d)", fn, b, len(sp), f, math.Float64bits(f), p)}
 }
 
-func caseFloat(c Case) float64 {
+func c14CaseFloat(c Case) float64 {
 	return math.Float64frombits(uint64(c.Args[0])<<32 | uint64(c.Args[1]))
 }
 
-func parseFloatGen(fn string) func(r *Rng, tier string, emit func(Case)) {
+func c14ParseFloatGen(fn string) func(r *Rng, tier string, emit func(Case)) {
 	return func(r *Rng, tier string, emit func(Case)) {
 		k, n := 5, 9000
 		if tier == "thorough" {
 			k, n = 7, 500000
 		}
-		allStrings(c14FloatAlphabet, k, func(b []byte) { emit(bytesCase(fn, b)) })
+		allStrings(c14FloatAlphabet, k, func(b []byte) { emit(c14BytesCase(fn, b)) })
 		for _, s := range []string{"", "-", ".", "-.", "+.", "e", "1e", "1e+", "1e-", "1.e1", ".e1", "1..2", "1.2.3", "-0", "-0.0", "0e400", "1e400", "1e-400",
 			"18446744073709551615", "18446744073709551616", "1844674407370955161.5", "184467440737095516150", "0.18446744073709551616", "18446744073709551616e-5",
 			"1e22", "1e23", "1e37", "1e38", "1000000000000000e22", "1000000000000001e22", "9007199254740993", "1e-22", "1e-23", "123456789012345678e-22",
-			"1e308", "1e309", "1e-323", "1e-324", "2e-324", "3e-324", "1e-308", "2.2250738585072014e-308", "4.9e-324", "17976931348623157e292", "17976931348623159e292",
+			"1e308", "1e309", "1.797693134862315708e+308", "1.7976931348623157e308", "17976931348623157e292", "1e-323", "1e-324", "2e-324", "3e-324", "1e-308", "2.2250738585072014e-308", "4.9e-324", "17976931348623157e292", "17976931348623159e292",
 			"1e9223372036854775807", "1e-9223372036854775808", "1e9223372036854775808", "0.000001e9223372036854775807", "1000000e-9223372036854775808"} {
-			emit(bytesCase(fn, []byte(s)))
-			emit(bytesCase(fn, []byte("-"+s)))
+			emit(c14BytesCase(fn, []byte(s)))
+			emit(c14BytesCase(fn, []byte("-"+s)))
 		}
 		// mantissas at the uint64 truncation boundary (MaxUint64/10 = 1844674407370955161), every next digit, dot at every place
 		for _, m := range []string{"1844674407370955161", "1844674407370955160", "1844674407370955162", "922337203685477580", "900719925474099", "1000000000000000", "999999999999999"} {
 			for d := 0; d <= 9; d++ {
 				full := m + gostrconv.Itoa(d)
 				for _, suf := range []string{"", "7", "e3", "e-3", "e22", "e-22", "e23", "00e-5"} {
-					emit(bytesCase(fn, []byte(full+suf)))
+					emit(c14BytesCase(fn, []byte(full+suf)))
 				}
 				for k := 0; k <= len(full); k += 3 {
-					emit(bytesCase(fn, []byte(full[:k]+"."+full[k:])))
-					emit(bytesCase(fn, []byte("-"+full[:k]+"."+full[k:]+"5e10")))
+					emit(c14BytesCase(fn, []byte(full[:k]+"."+full[k:])))
+					emit(c14BytesCase(fn, []byte("-"+full[:k]+"."+full[k:]+"5e10")))
 				}
 			}
 		}
 		for _, z := range []int{300, 307, 308, 309, 322, 323, 324, 325, 400} {
 			zs := string(bytes.Repeat([]byte{'0'}, z))
-			emit(bytesCase(fn, []byte("0."+zs+"1")))
-			emit(bytesCase(fn, []byte("0."+zs+"1e400")))
-			emit(bytesCase(fn, []byte("0."+zs+"1e"+gostrconv.Itoa(z))))
-			emit(bytesCase(fn, []byte("1"+zs)))
-			emit(bytesCase(fn, []byte("1"+zs+"e-"+gostrconv.Itoa(z))))
-			emit(bytesCase(fn, []byte("1"+zs+"e-400")))
+			emit(c14BytesCase(fn, []byte("0."+zs+"1")))
+			emit(c14BytesCase(fn, []byte("0."+zs+"1e400")))
+			emit(c14BytesCase(fn, []byte("0."+zs+"1e"+gostrconv.Itoa(z))))
+			emit(c14BytesCase(fn, []byte("1"+zs)))
+			emit(c14BytesCase(fn, []byte("1"+zs+"e-"+gostrconv.Itoa(z))))
+			emit(c14BytesCase(fn, []byte("1"+zs+"e-400")))
 		}
 		for i := 0; i < n; i++ {
 			if i%4 == 3 {
-				emit(bytesCase(fn, genFloatLiteral(r)))
+				emit(c14BytesCase(fn, c14GenFloatLiteral(r)))
 			} else {
-				emit(bytesCase(fn, genFloatString(r)))
+				emit(c14BytesCase(fn, c14GenFloatString(r)))
 			}
 		}
 	}
 }
 
-func floatResClass(c Case, out []int64) string {
+func c14FloatResClass(c Case, out []int64) string {
 	if len(out) != 3 {
 		return "panic"
 	}
@@ -1003,48 +1003,48 @@ func floatResClass(c Case, out []int64) string {
 	return s + "/prefix"
 }
 
-var scParseFloat = &Model{
+var c14ScParseFloat = &Model{
 	Name: "sc_parsefloat",
-	Gen:  parseFloatGen("sc_parsefloat"),
+	Gen:  c14ParseFloatGen("sc_parsefloat"),
 	Impl: func(c Case) []int64 {
 		bv, _ := takeList(c.Args)
 		var out []int64
-		if p := catch(func() { f, n := strconv.ParseFloat(toBytes(bv)); out = floatRes(f, n) }); p != nil {
+		if p := catch(func() { f, n := strconv.ParseFloat(toBytes(bv)); out = c14FloatRes(f, n) }); p != nil {
 			return []int64{-1}
 		}
 		return out
 	},
-	Shrink: shrinkLastBytes(0),
-	Class:  floatResClass,
+	Shrink: c14ShrinkLastBytes(0),
+	Class:  c14FloatResClass,
 }
 
-var scParseDecimal = &Model{
+var c14ScParseDecimal = &Model{
 	Name: "sc_parsedecimal",
-	Gen:  parseFloatGen("sc_parsedecimal"),
+	Gen:  c14ParseFloatGen("sc_parsedecimal"),
 	Impl: func(c Case) []int64 {
 		bv, _ := takeList(c.Args)
 		var out []int64
-		if p := catch(func() { f, n := strconv.ParseDecimal(toBytes(bv)); out = floatRes(f, n) }); p != nil {
+		if p := catch(func() { f, n := strconv.ParseDecimal(toBytes(bv)); out = c14FloatRes(f, n) }); p != nil {
 			return []int64{-1}
 		}
 		return out
 	},
-	Shrink: shrinkLastBytes(0),
-	Class:  floatResClass,
+	Shrink: c14ShrinkLastBytes(0),
+	Class:  c14FloatResClass,
 }
 
-func appendFloatGen(fn string, lo, hi int) func(r *Rng, tier string, emit func(Case)) {
+func c14AppendFloatGen(fn string, lo, hi int) func(r *Rng, tier string, emit func(Case)) {
 	return func(r *Rng, tier string, emit func(Case)) {
 		for _, f := range c14FloatValues {
 			for p := lo; p <= hi; p++ {
-				emit(floatCase(fn, f, p, nil, nil))
+				emit(c14FloatCase(fn, f, p, nil, nil))
 			}
-			emit(floatCase(fn, -f, lo+r.Intn(hi-lo+1), []byte("x"), bytes.Repeat([]byte{'#'}, 30)))
+			emit(c14FloatCase(fn, -f, lo+r.Intn(hi-lo+1), []byte("x"), bytes.Repeat([]byte{'#'}, 30)))
 		}
 		// small scope: every k/1000 for |k| <= 1100 and every precision 0..4
 		for k := -1100; k <= 1100; k++ {
 			for p := 0; p <= 4; p++ {
-				emit(floatCase(fn, float64(k)/1000, p, nil, nil))
+				emit(c14FloatCase(fn, float64(k)/1000, p, nil, nil))
 			}
 		}
 		n := 6000
@@ -1052,17 +1052,17 @@ func appendFloatGen(fn string, lo, hi int) func(r *Rng, tier string, emit func(C
 			n = 400000
 		}
 		for i := 0; i < n; i++ {
-			b, sp := genPrefixSpare(r)
-			emit(floatCase(fn, genFloat64(r), lo+r.Intn(hi-lo+1), b, sp))
+			b, sp := c14GenPrefixSpare(r)
+			emit(c14FloatCase(fn, c14GenFloat64(r), lo+r.Intn(hi-lo+1), b, sp))
 		}
 	}
 }
 
-func appendResClass(c Case, out []int64) string {
+func c14AppendResClass(c Case, out []int64) string {
 	if len(out) == 1 && out[0] < 0 {
 		return "panic"
 	}
-	f := caseFloat(c)
+	f := c14CaseFloat(c)
 	s := "normal"
 	switch {
 	case f != f || math.IsInf(f, 0):
@@ -1087,40 +1087,40 @@ func appendResClass(c Case, out []int64) string {
 	return s
 }
 
-var scAppendDecimal = &Model{
+var c14ScAppendDecimal = &Model{
 	Name: "sc_appenddecimal",
-	Gen:  appendFloatGen("sc_appenddecimal", -1, 19),
+	Gen:  c14AppendFloatGen("sc_appenddecimal", -1, 19),
 	Impl: func(c Case) []int64 {
 		bv, rest := takeList(c.Args[3:])
 		sv, _ := takeList(rest)
-		return encBytesOrPanic(func() []byte {
-			return strconv.AppendDecimal(withSpare(toBytes(bv), toBytes(sv)), caseFloat(c), int(c.Args[2]))
+		return c14EncBytesOrPanic(func() []byte {
+			return strconv.AppendDecimal(c14WithSpare(toBytes(bv), toBytes(sv)), c14CaseFloat(c), int(c.Args[2]))
 		})
 	},
-	Class: appendResClass,
+	Class: c14AppendResClass,
 }
 
-var scAppendFloat = &Model{
+var c14ScAppendFloat = &Model{
 	Name: "sc_appendfloat",
-	Gen:  appendFloatGen("sc_appendfloat", -1, 19),
+	Gen:  c14AppendFloatGen("sc_appendfloat", -1, 19),
 	Impl: func(c Case) []int64 {
 		bv, rest := takeList(c.Args[3:])
 		sv, _ := takeList(rest)
-		return encBytesOrPanic(func() []byte {
-			return strconv.AppendFloat(withSpare(toBytes(bv), toBytes(sv)), caseFloat(c), int(c.Args[2]))
+		return c14EncBytesOrPanic(func() []byte {
+			return strconv.AppendFloat(c14WithSpare(toBytes(bv), toBytes(sv)), c14CaseFloat(c), int(c.Args[2]))
 		})
 	},
-	Class: appendResClass,
+	Class: c14AppendResClass,
 }
 
-var scFloat64exp = &Model{
+var c14ScFloat64exp = &Model{
 	Name: "sc_float64exp",
 	Gen: func(r *Rng, tier string, emit func(Case)) {
 		mk := func(f float64) {
 			if f != f || math.IsInf(f, 0) {
 				return
 			}
-			hi, lo := u64halves(math.Float64bits(f))
+			hi, lo := c14U64halves(math.Float64bits(f))
 			emit(Case{Fn: "sc_float64exp", Args: []int64{hi, lo}, Note: fmt.Sprintf("float64exp(%v)", f)})
 		}
 		for _, f := range c14FloatValues {
@@ -1135,16 +1135,16 @@ var scFloat64exp = &Model{
 			n = 50000
 		}
 		for i := 0; i < n; i++ {
-			mk(math.Abs(genFloat64(r)))
+			mk(math.Abs(c14GenFloat64(r)))
 		}
 	},
-	Impl:  func(c Case) []int64 { return []int64{int64(strconv.VerifFloat64exp(caseFloat(c)))} },
+	Impl:  func(c Case) []int64 { return []int64{int64(strconv.VerifFloat64exp(c14CaseFloat(c)))} },
 	Class: func(c Case, out []int64) string { return fmt.Sprintf("exp%+04d", out[0]/50*50) },
 }
 
 func init() {
 	p := props["C14"]
-	p.Models = append(p.Models, scParseFloat, scParseDecimal, scAppendDecimal, scAppendFloat, scFloat64exp)
+	p.Models = append(p.Models, c14ScParseFloat, c14ScParseDecimal, c14ScAppendDecimal, c14ScAppendFloat, c14ScFloat64exp)
 }
 
 // ---- float oracles: the property text against math/big and the standard library ------------------------------
@@ -1154,9 +1154,9 @@ func init() {
 // first witness of each (function, symptom, class) is reported per run, so that KNOWN_FINDINGS.txt can list the
 // class and every failure outside the listed classes is still a VIOLATION.
 
-type classOnce struct{ seen map[string]bool }
+type c14ClassOnce struct{ seen map[string]bool }
 
-func (c *classOnce) violate(rep *Report, fnSymptom, class, input, desc string, rp map[string]interface{}) {
+func (c *c14ClassOnce) violate(rep *Report, fnSymptom, class, input, desc string, rp map[string]interface{}) {
 	if class != "" {
 		k := fnSymptom + ":" + class
 		if c.seen[k] {
@@ -1167,9 +1167,9 @@ func (c *classOnce) violate(rep *Report, fnSymptom, class, input, desc string, r
 	rep.Violate(fnSymptom+":"+class+":"+input, desc, rp)
 }
 
-// floatSyntax scans the longest prefix matching [+-]?(d+(.d*)?|.d+)([eE][+-]?d+)? (decimalOnly: -?(d+(.d*)?|.d+))
+// c14FloatSyntax scans the longest prefix matching [+-]?(d+(.d*)?|.d+)([eE][+-]?d+)? (decimalOnly: -?(d+(.d*)?|.d+))
 // and returns its length (0 if none), the number of integer and fractional digits and the exponent value.
-func floatSyntax(b []byte, decimalOnly bool) (n, intDigits, fracDigits int, exp *big.Int) {
+func c14FloatSyntax(b []byte, decimalOnly bool) (n, intDigits, fracDigits int, exp *big.Int) {
 	exp = new(big.Int)
 	i := 0
 	if len(b) > 0 && (b[0] == '-' || (!decimalOnly && b[0] == '+')) {
@@ -1209,15 +1209,15 @@ func floatSyntax(b []byte, decimalOnly bool) (n, intDigits, fracDigits int, exp 
 	return i, intDigits, fracDigits, exp
 }
 
-func floatPrefix(b []byte, decimalOnly bool) int {
-	n, _, _, _ := floatSyntax(b, decimalOnly)
+func c14FloatPrefix(b []byte, decimalOnly bool) int {
+	n, _, _, _ := c14FloatSyntax(b, decimalOnly)
 	return n
 }
 
-const minNormal = 2.2250738585072014e-308
+const c14MinNormal = 2.2250738585072014e-308
 
-// abbrev renders a literal with long runs of one byte written as c{xN}
-func abbrev(b []byte) string {
+// c14Abbrev renders a literal with long runs of one byte written as c{xN}
+func c14Abbrev(b []byte) string {
 	var out []byte
 	for i := 0; i < len(b); {
 		j := i
@@ -1234,11 +1234,11 @@ func abbrev(b []byte) string {
 	return fmt.Sprintf("%q", out)
 }
 
-func bigF(f float64) *big.Float { return new(big.Float).SetPrec(400).SetFloat64(f) }
+func c14BigF(f float64) *big.Float { return new(big.Float).SetPrec(400).SetFloat64(f) }
 
-// relDist = |got - want| / |want| (want != 0, both finite)
-func relDist(got float64, want *big.Float) float64 {
-	d := new(big.Float).SetPrec(400).Sub(bigF(got), want)
+// c14RelDist = |got - want| / |want| (want != 0, both finite)
+func c14RelDist(got float64, want *big.Float) float64 {
+	d := new(big.Float).SetPrec(400).Sub(c14BigF(got), want)
 	d.Abs(d)
 	d.Quo(d, new(big.Float).SetPrec(400).Abs(want))
 	q, _ := d.Float64()
@@ -1246,14 +1246,14 @@ func relDist(got float64, want *big.Float) float64 {
 }
 
 func c14ParseFloatOracle(r *Rng, tier string, rep *Report) {
-	once := &classOnce{seen: map[string]bool{}}
+	once := &c14ClassOnce{seen: map[string]bool{}}
 	lim64 := new(big.Int).Sub(new(big.Int).Lsh(big.NewInt(1), 63), big.NewInt(1000000))
 	check := func(b []byte, decimal bool) {
 		name, fn := "ParseFloat", strconv.ParseFloat
 		if decimal {
 			name, fn = "ParseDecimal", strconv.ParseDecimal
 		}
-		k, nInt, nFrac, exp := floatSyntax(b, decimal)
+		k, nInt, nFrac, exp := c14FloatSyntax(b, decimal)
 		if decimal && k == 0 {
 			// the clause covers inputs that begin with a decimal number only
 			rep.Eval(name+":"+string(b), false, name+"/not-a-number")
@@ -1270,13 +1270,13 @@ func c14ParseFloatOracle(r *Rng, tier string, rep *Report) {
 		}
 		var f float64
 		var n int
-		rp := map[string]interface{}{"fn": name, "input": hx(b), "text": abbrev(b)}
+		rp := map[string]interface{}{"fn": name, "input": hx(b), "text": c14Abbrev(b)}
 		if p := catch(func() { f, n = fn(b) }); p != nil {
-			rep.Violate(fmt.Sprintf("%s-panic::%q", name, b), fmt.Sprintf("%s(%s) panics: %v", name, abbrev(b), p), rp)
+			rep.Violate(fmt.Sprintf("%s-panic::%q", name, b), fmt.Sprintf("%s(%s) panics: %v", name, c14Abbrev(b), p), rp)
 			return
 		}
 		if n != k {
-			once.violate(rep, name+"-length", class, fmt.Sprintf("%q", b), fmt.Sprintf("%s(%s) consumed %d bytes, the longest prefix of the documented syntax has %d", name, abbrev(b), n, k), rp)
+			once.violate(rep, name+"-length", class, fmt.Sprintf("%q", b), fmt.Sprintf("%s(%s) consumed %d bytes, the longest prefix of the documented syntax has %d", name, c14Abbrev(b), n, k), rp)
 			rep.Eval(name+":"+string(b), true, name+"/length")
 			return
 		}
@@ -1288,16 +1288,19 @@ func c14ParseFloatOracle(r *Rng, tier string, rep *Report) {
 			case math.IsInf(want, 0):
 				bucket = name + "/inf"
 				if f != want {
-					bad = fmt.Sprintf("%s(%s) = %v, correctly rounded value is %v", name, abbrev(b), f, want)
+					bad = fmt.Sprintf("%s(%s) = %v, correctly rounded value is %v", name, c14Abbrev(b), f, want)
 				}
 			case want == 0:
 				bucket = name + "/zero"
 				if f != 0 {
-					bad = fmt.Sprintf("%s(%s) = %v, correctly rounded value is 0", name, abbrev(b), f)
+					bad = fmt.Sprintf("%s(%s) = %v, correctly rounded value is 0", name, c14Abbrev(b), f)
 				}
 			default:
 				bucket = name + "/normal"
-				if math.Abs(want) < minNormal {
+				if class == "" && math.Abs(want) >= math.MaxFloat64*(1-1e-15) {
+					class = "near-max" // the correctly rounded value is within 1e-15 of MaxFloat64
+				}
+				if math.Abs(want) < c14MinNormal {
 					bucket = name + "/subnormal"
 					if class == "" {
 						class = "subnormal" // the correctly rounded value is subnormal
@@ -1305,10 +1308,10 @@ func c14ParseFloatOracle(r *Rng, tier string, rep *Report) {
 				}
 				e := math.Inf(1)
 				if f == f && !math.IsInf(f, 0) {
-					e = relDist(f, bigF(want))
+					e = c14RelDist(f, c14BigF(want))
 				}
 				if e > 1e-14 {
-					bad = fmt.Sprintf("%s(%s) = %v, correctly rounded value is %v (relative error %.3g > 1e-14)", name, abbrev(b), f, want, e)
+					bad = fmt.Sprintf("%s(%s) = %v, correctly rounded value is %v (relative error %.3g > 1e-14)", name, c14Abbrev(b), f, want, e)
 				}
 			}
 			if bad != "" {
@@ -1318,7 +1321,7 @@ func c14ParseFloatOracle(r *Rng, tier string, rep *Report) {
 				bucket += "/" + class
 			}
 		} else if f != 0 {
-			rep.Violate(fmt.Sprintf("%s-value::%q", name, b), fmt.Sprintf("%s(%s) = (%v, 0)", name, abbrev(b), f), rp)
+			rep.Violate(fmt.Sprintf("%s-value::%q", name, b), fmt.Sprintf("%s(%s) = (%v, 0)", name, c14Abbrev(b), f), rp)
 		}
 		rep.Eval(name+":"+string(b), k > 0, bucket)
 	}
@@ -1327,7 +1330,7 @@ func c14ParseFloatOracle(r *Rng, tier string, rep *Report) {
 		k, n = 7, 2000000
 	}
 	allStrings(c14FloatAlphabet, k, func(b []byte) { check(b, false); check(b, true) })
-	parseFloatGen("x")(r, "quick", func(c Case) {
+	c14ParseFloatGen("x")(r, "quick", func(c Case) {
 		bv, _ := takeList(c.Args)
 		check(toBytes(bv), false)
 		check(toBytes(bv), true)
@@ -1335,17 +1338,17 @@ func c14ParseFloatOracle(r *Rng, tier string, rep *Report) {
 	for i := 0; i < n; i++ {
 		var b []byte
 		if i%3 == 0 {
-			b = genFloatLiteral(r)
+			b = c14GenFloatLiteral(r)
 		} else {
-			b = genFloatString(r)
+			b = c14GenFloatString(r)
 		}
 		check(b, false)
 		check(b, true)
 	}
 }
 
-// isLiteral: -?(digits(.digits)?|.digits)(e-?digits)? (allowExp, leading dot allowed) or -?digits(.digits)?
-func isLiteral(s []byte, allowExp, allowLeadingDot bool) bool {
+// c14IsLiteral: -?(digits(.digits)?|.digits)(e-?digits)? (allowExp, leading dot allowed) or -?digits(.digits)?
+func c14IsLiteral(s []byte, allowExp, allowLeadingDot bool) bool {
 	i := 0
 	if i < len(s) && s[i] == '-' {
 		i++
@@ -1390,47 +1393,47 @@ func isLiteral(s []byte, allowExp, allowLeadingDot bool) bool {
 	return i == len(s)
 }
 
-func bigOf(s []byte) (*big.Float, bool) {
+func c14BigOf(s []byte) (*big.Float, bool) {
 	f, _, err := big.ParseFloat(string(s), 10, 400, big.ToNearestEven)
 	return f, err == nil
 }
 
-func pow10Big(k int) *big.Float {
-	p := new(big.Float).SetPrec(400).SetInt(new(big.Int).Exp(big.NewInt(10), big.NewInt(int64(abs(k))), nil))
+func c14Pow10Big(k int) *big.Float {
+	p := new(big.Float).SetPrec(400).SetInt(new(big.Int).Exp(big.NewInt(10), big.NewInt(int64(c14Abs(k))), nil))
 	if k < 0 {
 		return new(big.Float).SetPrec(400).Quo(big.NewFloat(1).SetPrec(400), p)
 	}
 	return p
 }
 
-func abs(x int) int {
+func c14Abs(x int) int {
 	if x < 0 {
 		return -x
 	}
 	return x
 }
 
-// floorLog10 of a positive finite float64, exactly
-func floorLog10(f float64) int {
+// c14FloorLog10 of a positive finite float64, exactly
+func c14FloorLog10(f float64) int {
 	e := int(math.Floor(math.Log10(f)))
-	x := bigF(f)
-	for x.Cmp(pow10Big(e)) < 0 {
+	x := c14BigF(f)
+	for x.Cmp(c14Pow10Big(e)) < 0 {
 		e--
 	}
-	for x.Cmp(pow10Big(e+1)) >= 0 {
+	for x.Cmp(c14Pow10Big(e+1)) >= 0 {
 		e++
 	}
 	return e
 }
 
 func c14AppendOracle(r *Rng, tier string, rep *Report) {
-	once := &classOnce{seen: map[string]bool{}}
+	once := &c14ClassOnce{seen: map[string]bool{}}
 	lim63 := new(big.Float).SetPrec(400).SetInt(new(big.Int).Lsh(big.NewInt(1), 63))
 	checkDecimal := func(f float64, dec int, pre, sp []byte) {
 		in := fmt.Sprintf("%#x:%d", math.Float64bits(f), dec)
 		rp := map[string]interface{}{"fn": "AppendDecimal", "bits": fmt.Sprintf("%#x", math.Float64bits(f)), "f": fmt.Sprint(f), "dec": dec}
 		var out []byte
-		if p := catch(func() { out = strconv.AppendDecimal(withSpare(pre, sp), f, dec) }); p != nil {
+		if p := catch(func() { out = strconv.AppendDecimal(c14WithSpare(pre, sp), f, dec) }); p != nil {
 			rep.Violate("AppendDecimal-panic::"+in, fmt.Sprintf("AppendDecimal(%v, %d) panics: %v", f, dec, p), rp)
 			return
 		}
@@ -1450,7 +1453,7 @@ func c14AppendOracle(r *Rng, tier string, rep *Report) {
 		if d < 0 || d > 17 {
 			d = 17
 		}
-		scaled := new(big.Float).SetPrec(400).Mul(bigF(f), pow10Big(d))
+		scaled := new(big.Float).SetPrec(400).Mul(c14BigF(f), c14Pow10Big(d))
 		absScaled := new(big.Float).Abs(scaled)
 		class, bucket := "", "AppendDecimal/int64"
 		if absScaled.Cmp(lim63) >= 0 {
@@ -1458,7 +1461,7 @@ func c14AppendOracle(r *Rng, tier string, rep *Report) {
 		}
 		bad := func(symptom, desc string) { once.violate(rep, "AppendDecimal-"+symptom, class, in, desc, rp) }
 		defer rep.Eval("d:"+in, true, bucket)
-		if !isLiteral(body, false, false) {
+		if !c14IsLiteral(body, false, false) {
 			bad("shape", fmt.Sprintf("AppendDecimal(%v, %d) = %q is not -?digits(.digits)?", f, dec, body))
 			return
 		}
@@ -1473,7 +1476,7 @@ func c14AppendOracle(r *Rng, tier string, rep *Report) {
 		if len(body) > 1 && body[0] == '0' && body[1] != '.' || len(body) > 2 && body[0] == '-' && body[1] == '0' && body[2] != '.' {
 			bad("shape", fmt.Sprintf("AppendDecimal(%v, %d) = %q has a leading zero", f, dec, body))
 		}
-		v, ok := bigOf(body)
+		v, ok := c14BigOf(body)
 		if !ok {
 			bad("shape", fmt.Sprintf("AppendDecimal(%v, %d) = %q does not parse", f, dec, body))
 			return
@@ -1482,9 +1485,9 @@ func c14AppendOracle(r *Rng, tier string, rep *Report) {
 			bad("sign", fmt.Sprintf("AppendDecimal(%v, %d) = %q has the wrong sign", f, dec, body))
 		}
 		// parses back within the requested digits: |v - f| * 10^dec <= 0.5 (+ the float64 rounding of f*10^dec: 2^-51 relative)
-		diff := new(big.Float).SetPrec(400).Sub(v, bigF(f))
+		diff := new(big.Float).SetPrec(400).Sub(v, c14BigF(f))
 		diff.Abs(diff)
-		diff.Mul(diff, pow10Big(d))
+		diff.Mul(diff, c14Pow10Big(d))
 		tol := new(big.Float).SetPrec(400).Mul(absScaled, big.NewFloat(math.Ldexp(1, -51)))
 		tol.Add(tol, big.NewFloat(0.5))
 		if diff.Cmp(tol) > 0 {
@@ -1496,7 +1499,7 @@ func c14AppendOracle(r *Rng, tier string, rep *Report) {
 		in := fmt.Sprintf("%#x:%d", math.Float64bits(f), prec)
 		rp := map[string]interface{}{"fn": "AppendFloat", "bits": fmt.Sprintf("%#x", math.Float64bits(f)), "f": fmt.Sprint(f), "prec": prec}
 		var out []byte
-		if p := catch(func() { out = strconv.AppendFloat(withSpare(pre, sp), f, prec) }); p != nil {
+		if p := catch(func() { out = strconv.AppendFloat(c14WithSpare(pre, sp), f, prec) }); p != nil {
 			rep.Violate("AppendFloat-panic::"+in, fmt.Sprintf("AppendFloat(%v, %d) panics: %v", f, prec, p), rp)
 			return
 		}
@@ -1522,10 +1525,10 @@ func c14AppendOracle(r *Rng, tier string, rep *Report) {
 		switch {
 		case f == 0:
 			bucket = "AppendFloat/zero"
-		case a < minNormal:
+		case a < c14MinNormal:
 			class, bucket = "subnormal", "AppendFloat/subnormal"
 		default:
-			e10 = floorLog10(a)
+			e10 = c14FloorLog10(a)
 			// float64exp estimates the decimal exponent from the binary one: floor(exp2*log10(2)), which is one too
 			// large for 2^(exp2-1) <= |f| < 10^est; the output then has one significant digit fewer than requested
 			_, exp2 := math.Frexp(a)
@@ -1537,11 +1540,11 @@ func c14AppendOracle(r *Rng, tier string, rep *Report) {
 		}
 		bad := func(symptom, desc string) { once.violate(rep, "AppendFloat-"+symptom, class, in, desc, rp) }
 		defer rep.Eval("f:"+in, true, bucket)
-		if !isLiteral(body, true, true) {
+		if !c14IsLiteral(body, true, true) {
 			bad("shape", fmt.Sprintf("AppendFloat(%v, %d) = %q is not a well-formed literal", f, prec, body))
 			return
 		}
-		if floatPrefix(body, false) != len(body) {
+		if c14FloatPrefix(body, false) != len(body) {
 			bad("shape", fmt.Sprintf("AppendFloat(%v, %d) = %q is not matched entirely by ParseFloat's syntax", f, prec, body))
 		}
 		txt := body
@@ -1551,7 +1554,7 @@ func c14AppendOracle(r *Rng, tier string, rep *Report) {
 		if len(txt) > 0 && txt[0] == '.' {
 			txt = append([]byte{'0'}, txt...)
 		}
-		v, ok := bigOf(txt)
+		v, ok := c14BigOf(txt)
 		if !ok {
 			bad("shape", fmt.Sprintf("AppendFloat(%v, %d) = %q does not parse", f, prec, body))
 			return
@@ -1567,14 +1570,14 @@ func c14AppendOracle(r *Rng, tier string, rep *Report) {
 		}
 		// parses back to the argument truncated to prec+1 significant digits: 0 <= |f| - v < one unit of that digit
 		// (+- 2^-50 relative for the float64 scaling)
-		diff := new(big.Float).SetPrec(400).Sub(bigF(a), v)
-		slack := new(big.Float).SetPrec(400).Mul(bigF(a), big.NewFloat(math.Ldexp(1, -50)))
-		unit := pow10Big(e10 - p)
+		diff := new(big.Float).SetPrec(400).Sub(c14BigF(a), v)
+		slack := new(big.Float).SetPrec(400).Mul(c14BigF(a), big.NewFloat(math.Ldexp(1, -50)))
+		unit := c14Pow10Big(e10 - p)
 		hi := new(big.Float).SetPrec(400).Add(unit, slack)
 		lo := new(big.Float).SetPrec(400).Neg(slack)
 		if class == "subnormal" {
-			e10 = floorLog10(a)
-			unit = pow10Big(e10 - p)
+			e10 = c14FloorLog10(a)
+			unit = c14Pow10Big(e10 - p)
 			hi.Add(unit, slack)
 		}
 		if diff.Cmp(hi) >= 0 || diff.Cmp(lo) < 0 {
@@ -1582,7 +1585,7 @@ func c14AppendOracle(r *Rng, tier string, rep *Report) {
 				// classify by cause, each verified on this very output so that nothing else hides behind the class
 				hi10 := new(big.Float).SetPrec(400).Add(new(big.Float).SetPrec(400).Mul(unit, big.NewFloat(10)), slack)
 				v100 := new(big.Float).SetPrec(400).Mul(v, big.NewFloat(100))
-				d100 := new(big.Float).SetPrec(400).Sub(bigF(a), v100)
+				d100 := new(big.Float).SetPrec(400).Sub(c14BigF(a), v100)
 				switch {
 				case 100 <= a && a < 1000 && len(txt) == 5 && txt[1] == '.' && txt[3] == '0' && txt[4] == '0' && d100.Cmp(hi10) < 0 && d100.Cmp(lo) >= 0:
 					class = "hundreds" // 100 <= |f| < 1000: "d.d" followed by the two zeros meant for an integer mantissa
@@ -1617,8 +1620,8 @@ func c14AppendOracle(r *Rng, tier string, rep *Report) {
 		n = 2000000
 	}
 	for i := 0; i < n; i++ {
-		b, sp := genPrefixSpare(r)
-		f := genFloat64(r)
+		b, sp := c14GenPrefixSpare(r)
+		f := c14GenFloat64(r)
 		checkDecimal(f, r.Intn(20)-1, b, sp)
 		checkFloat(f, r.Intn(20)-1, b, sp)
 	}
